@@ -86,6 +86,15 @@ def op_pool(ctx, lays):
     # keyword constructions that leave array / group attributes to their nominal value
     for c, i, m, kw in ((0x0A, 0x31, 0, {"version": 0, "numRfBlocks": 2}), (0x02, 0x73, 0, {"gnssId": 5}), (0x0A, 0x31, 0, {"version": 0, "numRfBlocks": 1})):
         ops.append({"kind": "construct", "cls": c, "id": i, "mode": m, "pbf": 1, "kwargs": kw})
+    # configuration-database traffic: CFG-VALGET (GET) / CFG-VALSET (SET) frames holding key lists, helpers addressed by integer key ID
+    for l in [x for x in lays if x["reachable"] and x["c"] == 0 and x["pbf"] and ((x["name"] == "CFG-VALSET" and x["m"] == 1) or (x["name"] == "CFG-VALGET" and x["m"] == 0))]:
+        for _ in range(4):
+            P = walk.fill(l, "rand", rng, cfgdb)
+            ops.append({"kind": "parse", "f": frame(l["cls"], l["id"], P).hex(), "mode": l["m"], "pbf": 1})
+    for _ in range(6):
+        es = [e for e in rng.sample(cfgdb[len(cfgdb) // 2:], 6) if e["t"][0] in "UEL"]
+        ops.append({"kind": "config", "fn": "config_set", "a": 1, "b": 0, "items": [[int.from_bytes(bytes(e["key"]), "little"), 1] for e in es]})
+        ops.append({"kind": "config", "fn": "config_del", "a": 1, "b": 0, "items": [int.from_bytes(bytes(e["key"]), "little") for e in es]})
     for _ in range(12):
         es = rng.sample(cfgdb, rng.randrange(1, 8))
         es = [e for e in es if e["t"][0] in "UEL"]
@@ -151,11 +160,30 @@ def run(ctx):
             hist = [rng.choice(idx) for _ in range(rng.randrange(30, 61))]
             yield ("world", {"_k": "hist:%d" % k, "mode": "history", "ops": ops, "probes": probes, "history": hist})
         # (d) schedules from TLC
+        # operation families that share lazily initialised / looked-up state (configuration database, variant selectors, identities):
+        # in every second schedule the three workers run operations of ONE family, and the interleaving is the first use of the
+        # library in that interpreter (reference results are taken afterwards)
+        fams = {}
+        for j, o in enumerate(ops):
+            if o["kind"] == "config" or (o["kind"] in ("parse", "construct") and (o.get("cls") == 6 and o.get("id") in (0x8A, 0x8B) or o.get("f", "")[4:8] in ("068a", "068b"))):
+                fams.setdefault("cfg", []).append(j)
+            elif o["kind"] == "parse":
+                fams.setdefault("p" + o["f"][4:6], []).append(j)
+            elif o["kind"] == "construct":
+                fams.setdefault("c%02x" % o["cls"], []).append(j)
+        famkeys = sorted(k for k, v in fams.items() if len(v) >= 3)
         for k, sc in enumerate(scheds):
-            a, b, c = rng.sample(range(len(ops)), 3)
-            yield ("world", {"_k": "sched:%d" % k, "mode": "scheduled", "ops": ops, "map": {"a": a, "b": b, "c": c}, "schedule": sc, "steps": 4})
-        for k in range(30 if big else 4):
-            yield ("world", {"_k": "thr:%d" % k, "mode": "threads", "ops": ops, "probes": rng.sample(range(len(ops)), 5), "threads": 4, "reps": 15})
+            if k % 2 and famkeys:
+                fk = "cfg" if (k % 4 == 1 and "cfg" in famkeys) else famkeys[(k // 2) % len(famkeys)]
+                a, b, c = rng.sample(fams[fk], 3)
+                yield ("world", {"_k": "sched1st:%d" % k, "mode": "scheduled", "ops": ops, "map": {"a": a, "b": b, "c": c}, "schedule": sc, "steps": 4,
+                                 "seqfirst": 0, "quantum": (5, 25, 60, 150)[(k // 2) % 4]})
+            else:
+                a, b, c = rng.sample(range(len(ops)), 3)
+                yield ("world", {"_k": "sched:%d" % k, "mode": "scheduled", "ops": ops, "map": {"a": a, "b": b, "c": c}, "schedule": sc, "steps": 4})
+        for k in range(30 if big else 6):
+            probes = rng.sample(fams["cfg"], min(5, len(fams["cfg"]))) if (k % 2 and "cfg" in fams) else rng.sample(range(len(ops)), 5)
+            yield ("world", {"_k": "thr:%d" % k, "mode": "threads", "ops": ops, "probes": probes, "threads": 4, "reps": 15, "seqfirst": 1 - k % 2})
 
     run_batch(ctx, MODULE, CFG, gen(), world.OBSERVERS, sigfn, negfn, chunk=400, neg_every=3, parallel="threads")
 
